@@ -297,6 +297,19 @@ def body_centroids(env):
             ok = ok and d[j] < 1e-6 * P and j not in used
             used.add(j)
         env.holds('%s: centroids are six-fold symmetric' % name, bool(ok), key='centroids_not_symmetric')
+    # every wall / bypass centroid lies at mid-thickness of its own annulus (distance from the axis along the nearest face
+    # normal = mean of the two flat-to-flat half-sizes); the face normals are read off the corner cells of the first wall
+    typ = np.asarray(sc.type)
+    ring0, t0 = xy[nsc:nsc + nd], typ[nsc:nsc + nd]
+    ang = np.arctan2(ring0[t0 == t0.max()][:, 1], ring0[t0 == t0.max()][:, 0])
+    normals = np.array([[np.cos(a_ + np.pi / 6), np.sin(a_ + np.pi / 6)] for a_ in ang])
+    ftf = np.sort(np.ravel(np.asarray(r.duct_ftf, dtype=float)))
+    env.holds('six corner cells per wall', len(ang) == 6)
+    for w in range(2 * nduct - 1):
+        pts = xy[nsc + w * nd: nsc + (w + 1) * nd]
+        proj = np.max(pts @ normals.T, axis=1)
+        env.holds('wall/bypass ring %d: centroids at mid-thickness of their own annulus' % w,
+                  bool(np.all(np.abs(proj - 0.25 * (ftf[w] + ftf[w + 1])) < 1e-9 * P)), key='centroids_disagree_with_adjacency')
     adj = sc.sc_adj
     far = 0
     for i in range(nsc):
